@@ -546,36 +546,55 @@ Proof.
   all: run_helper; simpl; unfold load_binary.
   all: try (destruct (lookup_file (p0 :: p') fs) as [bytes|]); fin.
 Qed.
+Ltac enc_fin :=
+  repeat (simpl;
+    match goal with
+    | |- context [if ?b then _ else _] => destruct b eqn:?; zsubst
+    end); simpl; try rewrite mem_flags_0; intros; try reflexivity; try discriminate; boolfin.
+
 Lemma st_encrypt_file : forall c fs kbs id o p t, sclean (SEncrypt id o (LFile p) t) = true ->
+   enc_at_start c kbs (SEncrypt id o (LFile p) t) = true ->
    to_opt (compile_impl c fs kbs (SEncrypt id o (LFile p) t)) = stmt_spec c fs kbs (SEncrypt id o (LFile p) t).
 Proof.
-  intros c fs kbs id o p t Hs. simpl in Hs;
+  intros c fs kbs id o p t Hs He. simpl in Hs. unfold enc_at_start, spec_target in He. revert He.
   destruct o as [|s|eo]; destruct t as [e1|e1 e2]; simpl in Hs; split_hyps.
   all: prep c.
+  all: try (intros; reflexivity).
   all: destruct p as [|p0 p']; simpl.
   all: run_helper; simpl; unfold load_binary.
-  all: try (destruct (lookup_file (p0 :: p') fs) as [bytes|]); simpl; try reflexivity.
-  all: try (destruct (resolve_keyblob kbs v) as [k|k]; simpl; try reflexivity).
-  all: fin.
+  all: try (destruct (lookup_file (p0 :: p') fs) as [bytes|]); simpl; try (intros; reflexivity).
+  all: try (destruct (resolve_keyblob kbs v) as [k|k] eqn:Ek; simpl; try (intros; reflexivity)).
+  all: enc_fin.
+  all: simpl in He; rewrite Ek in He.
+  all: match type of He with (if ?b then _ else _) = true =>
+         replace b with true in He by (symmetry; apply andb_true_iff; split; apply negb_true_iff; apply Z.eqb_neq; assumption) end.
+  all: apply Z.eqb_eq in He; subst; reflexivity.
 Qed.
 Lemma st_encrypt_src : forall c fs kbs id o x t, sclean (SEncrypt id o (LSource x) t) = true ->
+   enc_at_start c kbs (SEncrypt id o (LSource x) t) = true ->
    to_opt (compile_impl c fs kbs (SEncrypt id o (LSource x) t)) = stmt_spec c fs kbs (SEncrypt id o (LSource x) t).
 Proof.
-  intros c fs kbs id o x t Hs. simpl in Hs;
+  intros c fs kbs id o x t Hs He. simpl in Hs. unfold enc_at_start, spec_target in He. revert He.
   destruct o as [|s|eo]; destruct t as [e1|e1 e2]; simpl in Hs; split_hyps.
   all: prep c.
-  all: destruct (lookup_src x (srcs c)) as [p|]; simpl; try reflexivity.
+  all: try (intros; reflexivity).
+  all: destruct (lookup_src x (srcs c)) as [p|]; simpl; try (intros; reflexivity).
   all: try (destruct p as [|p0 p']; simpl).
   all: run_helper; simpl; unfold load_binary.
-  all: try (destruct (lookup_file (p0 :: p') fs) as [bytes|]); simpl; try reflexivity.
-  all: try (destruct (resolve_keyblob kbs v) as [k|k]; simpl; try reflexivity).
-  all: fin.
+  all: try (destruct (lookup_file (p0 :: p') fs) as [bytes|]); simpl; try (intros; reflexivity).
+  all: try (destruct (resolve_keyblob kbs v) as [k|k] eqn:Ek; simpl; try (intros; reflexivity)).
+  all: enc_fin.
+  all: simpl in He; rewrite Ek in He.
+  all: match type of He with (if ?b then _ else _) = true =>
+         replace b with true in He by (symmetry; apply andb_true_iff; split; apply negb_true_iff; apply Z.eqb_neq; assumption) end.
+  all: apply Z.eqb_eq in He; subst; reflexivity.
 Qed.
 
 Theorem stmt_sem_except_known :
-  forall c fs kbs s, sclean s = true -> to_opt (compile_impl c fs kbs s) = stmt_spec c fs kbs s.
+  forall c fs kbs s, sclean s = true -> enc_at_start c kbs s = true ->
+    to_opt (compile_impl c fs kbs s) = stmt_spec c fs kbs s.
 Proof.
-  intros c fs kbs s Hs. destruct s as [o d t|o t|o| |o e|j t a|sp t a| |n e|b o t|id b a|id o d t].
+  intros c fs kbs s Hs He. destruct s as [o d t|o t|o| |o e|j t a|sp t a| |n e|b o t|id b a|id o d t].
   - destruct d as [e|p|x|b].
     + destruct o as [|s|eo]; [apply st_fill; assumption | apply st_prog; [assumption|discriminate] | apply st_prog; [assumption|discriminate]].
     + apply st_loadfile; assumption.
@@ -598,9 +617,10 @@ Qed.
 
 (* whatever SPSDK accepts outside the finding classes is the specified command: never mis-translated *)
 Theorem stmt_never_mistranslated :
-  forall c fs kbs s cmd, sclean s = true -> compile_impl c fs kbs s = Ok cmd -> stmt_spec c fs kbs s = Some cmd.
+  forall c fs kbs s cmd, sclean s = true -> enc_at_start c kbs s = true ->
+    compile_impl c fs kbs s = Ok cmd -> stmt_spec c fs kbs s = Some cmd.
 Proof.
-  intros c fs kbs s cmd Hs H. rewrite <- stmt_sem_except_known by assumption. rewrite H. reflexivity.
+  intros c fs kbs s cmd Hs He H. rewrite <- stmt_sem_except_known by assumption. rewrite H. reflexivity.
 Qed.
 
 (* non-vacuity: clean statements of every kind that compile to a command *)
@@ -608,7 +628,7 @@ Example sclean_instances :
   let c := {| vars := [(1%N, DInt 4096)]; srcs := [(2%N, [102%N])] |} in
   let fs := [([102%N], [1%N; 2%N; 3%N])] in
   let kbs := [(0, [("start", DInt 134217728); ("end", DInt 134218751); ("key", DStr (repeat 48%N 32)); ("counter", DStr (repeat 48%N 16))])] in
-  forallb (fun s => sclean s && is_ok (compile_impl c fs kbs s))
+  forallb (fun s => sclean s && enc_at_start c kbs s && is_ok (compile_impl c fs kbs s))
     [SLoad MNone (LPattern (EBin Add (EVar 1) (ELit 85))) (TRange (ELit 8192) (EBin Mul (ELit 3) (EVar 1)));
      SLoad (MName "fuse") (LPattern (ELit 1)) (TAddr (ELit 16777608));
      SLoad (MName "sdcard") (LSource 2) (TAddr (ELit 134218120)); SLoad (MAt (ELit 288)) (LFile [102%N]) (TAddr (ELit 16));
